@@ -36,6 +36,18 @@ def read_events(trace_path):
 
 def build_run(rid, tree, cfg, events):
     """Returns (lines, problem): the ndjson lines of one run for Trace_Grouping, or the reason why none can be built."""
+    scanned = []
+    for f in tree.files:
+        p = tree.path[f["id"]]
+        if os.path.islink(p) and not cfg.get("symlinks"):
+            continue
+        scanned.append((p, (gg.ROOTS.index(f["root"]) + 1) if cfg.get("isolate") else 0))
+    return build_run_from_paths(rid, scanned, cfg, events, ())
+
+
+def build_run_from_paths(rid, scanned, cfg, events, bad):
+    """scanned: (absolute path, isolate root index) of every path the scan is expected to select; bad: paths through which the file
+    cannot be read in this run (fault injection)."""
     params = {}
     for e in events:
         if e["ev"] == "GroupParams":
@@ -61,10 +73,7 @@ def build_run(rid, tree, cfg, events):
     files = []
     index = {}
     inos, atoms = {}, {}          # one name space of atoms for all windows: equal atom <=> equal byte string
-    for f in tree.files:
-        p = tree.path[f["id"]]
-        if os.path.islink(p) and not cfg.get("symlinks"):
-            continue
+    for p, root in scanned:
         st = os.stat(p)
         if not stat.S_ISREG(st.st_mode) or st.st_size < 1:
             continue
@@ -74,13 +83,15 @@ def build_run(rid, tree, cfg, events):
         pk = data[:n] if n <= P else data[:MIN_PREFIX]
         sk = data[n - min(S, n):]
         out = tf(data) if tf else data
-        files.append({"ino": inos.setdefault((st.st_dev, st.st_ino), len(inos) + 1), "root": (gg.ROOTS.index(f["root"]) + 1) if cfg.get("isolate") else 0,
+        files.append({"ino": inos.setdefault((st.st_dev, st.st_ino), len(inos) + 1), "root": root,
                       "len": n, "pk": atoms.setdefault(pk, len(atoms) + 1), "sk": atoms.setdefault(sk, len(atoms) + 1), "ck": atoms.setdefault(data, len(atoms) + 1),
                       "tlen": len(out), "tk": atoms.setdefault(out, len(atoms) + 1)})
         index[os.path.normpath(p)] = len(files)
-    lines = [json.dumps({"ev": "Reset", "run": rid, "inp": {"files": files, "cfg": {"kind": kind, "rf": rf, "isolate": bool(cfg.get("isolate")),
-                                                                                  "matchLinks": bool(cfg.get("matchLinks")),
-                                                                                  "skipContent": bool(cfg.get("skip_content")), "transform": bool(tname), "P": P, "T": T}}})]
+    bad_ids = sorted(index[os.path.normpath(b)] for b in bad if os.path.normpath(b) in index)
+    lines = [json.dumps({"ev": "Reset", "run": rid, "inp": {"files": files, "bad": bad_ids,
+                                                           "cfg": {"kind": kind, "rf": rf, "isolate": bool(cfg.get("isolate")),
+                                                                   "matchLinks": bool(cfg.get("matchLinks")),
+                                                                   "skipContent": bool(cfg.get("skip_content")), "transform": bool(tname), "P": P, "T": T}}})]
     for e in stages:
         groups = []
         for g in e["groups"]:
